@@ -88,7 +88,11 @@ func (lib *KnowledgeLibrary) LoadKnowledgeBaseFromReader(reader io.Reader, overw
 
 	catalog := &Catalog{}
 	err := catalog.ReadCatalogFromReader(reader)
-	if err != nil && err != io.EOF {
+	if err != nil {
+		if err == io.EOF {
+			// the stream ended at a field boundary before the catalog was complete.
+			err = io.ErrUnexpectedEOF
+		}
 
 		return nil, err
 	}
